@@ -181,6 +181,40 @@ theorem rules_of_rulesB (s : SchemaD) (d : Doc) (h : rulesB s d = true) : Schema
       rw [er] at h3
       simpa using h3
 
+
+/-- executable form of PossibleFragmentSpreads -/
+def spreadsB (s : SchemaD) (fx : Fixes) (d : Doc) : Bool :=
+  (viewNodes s d).all fun q =>
+    match q.1 with
+    | .spread name _ =>
+      (match AL.get? (fragTypes s d) name, spreadParent fx q.2 with
+        | some ft, some p => !isComposite s ft || !isComposite s p || typesOverlap s ft p
+        | _, _ => true)
+    | .inline _ _ =>
+      (match q.2.type, q.2.parent with
+        | some (.named t), some p => !isComposite s t || !isComposite s p || typesOverlap s t p
+        | _, _ => true)
+    | _ => true
+
+theorem spreads_of_spreadsB (s : SchemaD) (fx : Fixes) (d : Doc) (h : spreadsB s fx d = true) :
+    possibleFragmentSpreads s fx d := by
+  unfold spreadsB at h
+  simp only [List.all_eq_true] at h
+  intro q hq
+  obtain ⟨nd, v⟩ := q
+  constructor
+  · intro name dirs e ft p hget hpar hcf hcp
+    simp only at e; subst e
+    have := h _ hq
+    simp only [hget, hpar, hcf, hcp, Bool.not_true, Bool.false_or] at this
+    exact this
+  · intro on dirs e t p htype hpar hct hcp
+    simp only at e; subst e
+    have := h _ hq
+    simp only at htype hpar
+    simp only [htype, hpar, hct, hcp, Bool.not_true, Bool.false_or] at this
+    exact this
+
 /-! ### a concrete compatible evolution -/
 
 private def builtins : List TypeD :=
@@ -248,6 +282,12 @@ example : rulesB rO rDoc = true := by decide
 example : SchemaRules rN rDoc :=
   operations_stay_valid_rules rO rN (by decide) rO_wf rN_wf rDoc
     (rooted_of_rootedB rO rDoc (by decide)) (rules_of_rulesB rO rDoc (by decide))
+
+/-- the same instance for PossibleFragmentSpreads (the document spreads `F on Pet` and `... on Dog` inside `pet: Pet`) -/
+example : possibleFragmentSpreads rN {} rDoc :=
+  nobreaking_possibleFragmentSpreads rO rN (by decide) rO_wf rN_wf rDoc {} rfl
+    (rooted_of_rootedB rO rDoc (by decide)) (rules_of_rulesB rO rDoc (by decide))
+    (spreads_of_spreadsB rO {} rDoc (by decide))
 
 /-- **`OpsRooted` cannot be dropped (finding G6).** `mutation { foo }` satisfies every rule on a schema without a
     mutation type (no rule looks at an operation whose root type does not exist); adding the mutation type is not a
